@@ -273,7 +273,15 @@ def main():
     if a.prop not in PROPS:
         print("unknown property", a.prop, "known:", " ".join(sorted(PROPS)))
         sys.exit(2)
-    sys.exit(check_property(a.prop, a.tier, seed, do_playback=not a.no_playback))
+    try:
+        rc = check_property(a.prop, a.tier, seed, do_playback=not a.no_playback)
+    except Exception:  # an internal error of the machinery is never a verdict
+        import traceback
+
+        traceback.print_exc()
+        print("INCONCLUSIVE property=%s internal error of the checking machinery (see traceback)" % a.prop)
+        rc = 2
+    sys.exit(rc)
 
 
 if __name__ == "__main__":
